@@ -277,6 +277,9 @@ def _catalogue():
     # D25 fan-out whose transitions are not written in alphabetical order of their targets, each publishing
     add("D25", {"s": T([("any", ["x"], ["zz"]), ("any", ["y"], ["mm", "aa"])]), "zz": T([("ok", [], ["k"])]), "mm": T(), "aa": T([("ok", [], ["k"])]), "k": T()},
         output=["x", "y"])
+    # D14 nested split followed by a fork-join: x runs once per inbound route, each with its own c, d and join j
+    add("D14", {"s": T([("any", [], ["a", "b"])]), "a": T([("ok", [], ["x"])]), "b": T([("ok", [], ["x"])]),
+                "x": T([("ok", [], ["c", "d"])]), "c": T([("ok", [], ["j"])]), "d": T([("ok", [], ["j"])]), "j": T(join="all")})
     # D06p split routes with publishes
     add("D06p", {"s": T([("any", ["x"], ["a", "b"])]), "a": T([("any", ["y"], ["m"])]),
                  "b": T([("any", ["x"], ["m"])]), "m": T([("any", ["w"], ["n"])]), "n": T()},
